@@ -29,7 +29,7 @@ ASSUMPTIONS = [
     "dedicated shard",
 ]
 GATES = {
-    "bilateral_clamped_by_image": 1,
+    "bilateral_clamped_by_image": 1, "margin_parameter_left_to_its_default": 5, "bilateral_default_after_an_explicit_sigma_space": 2,
     "noncumulative_dominates": 1,
     "cumulative_dominates": 1,
     "step_gt_1": 1,
@@ -106,6 +106,32 @@ def _accepted(L):
     return out
 
 
+OMIT = "__omitted__"
+DOCUMENTED_DEFAULTS = {"window_size": 5, "filter_size": 3, "sigma_space": 6.0}
+
+
+def strip_omitted(pipe):
+    return {k: {a: b for a, b in p.items() if not (isinstance(b, str) and b == OMIT)} for k, p in pipe.items()}
+
+
+def documented(pipe):
+    """The user's pipeline completed with the documented defaults of the margin-bearing parameters (from the statement of
+    C20 / C05, not from what the code stored)."""
+    out = {}
+    for k, p in pipe.items():
+        q = dict(p)
+        kind = pipes.kind_of(k)
+        if kind == "matching_cost":
+            q.setdefault("window_size", DOCUMENTED_DEFAULTS["window_size"])
+        if kind == "filter":
+            if q.get("filter_method") == "bilateral":
+                q.setdefault("sigma_space", DOCUMENTED_DEFAULTS["sigma_space"])
+            else:
+                q.setdefault("filter_size", DOCUMENTED_DEFAULTS["filter_size"])
+        out[k] = q
+    return out
+
+
 def draw_params(rng, keys, shape):
     params = {}
     for k in keys:
@@ -114,13 +140,21 @@ def draw_params(rng, keys, shape):
             meth = ["sad", "ssd", "census", "zncc"][int(rng.integers(0, 4))]
             w = int(rng.choice([3, 5])) if meth == "census" else int(rng.choice([1, 3, 5, 7, 9, 11]))
             params[k] = {"matching_cost_method": meth, "window_size": w, "subpix": int(rng.choice([1, 2, 4]))}
+            if rng.random() < 0.25:
+                params[k]["window_size"] = OMIT  # documented default: 5
         elif kind == "filter":
             meth = ["median", "bilateral", "median_for_intervals"][int(rng.integers(0, 3))]
             if meth == "bilateral":
                 params[k] = {"filter_method": meth, "sigma_space": float(rng.choice([0.5, 1.0, 2.0, 2.4, 6.0, 8.0])),
                              "sigma_color": float(rng.choice([0.5, 2.0]))}
+                if rng.random() < 0.35:
+                    del params[k]["sigma_space"]  # documented default: 6.0
+                if rng.random() < 0.35:
+                    del params[k]["sigma_color"]
             else:
                 params[k] = {"filter_method": meth, "filter_size": int(rng.choice([1, 3, 5, 7, 9, 11]))}
+                if rng.random() < 0.25:
+                    del params[k]["filter_size"]  # documented default: 3
                 if meth == "median_for_intervals" and rng.random() < 0.6:
                     params[k].update({"regularization": bool(rng.integers(0, 2)), "vertical_depth": int(rng.choice([0, 2, 8, 20])),
                                       "ambiguity_kernel_size": int(rng.choice([1, 5, 9])),
@@ -171,9 +205,17 @@ def _check_margins(ctx, case, keys, pipe, shape, step=1, validation_compare=True
                 pipe[k]["band"] = "r"
     ml, mr = _meta(shape, mb)
     m = pipes.new_machine()
+    pipe = strip_omitted(pipe)
     m.check_conf({"pipeline": copy.deepcopy(pipe)}, ml, mr)
     got = m.margins.to_dict()
-    completed = {k: m.pipeline_cfg["pipeline"][k] for k in keys}
+    completed = documented({k: pipe[k] for k in keys})
+    ctx.gate("margin_parameter_left_to_its_default", int(any(
+        ("window_size" not in pipe[k] and pipes.kind_of(k) == "matching_cost") or
+        (pipes.kind_of(k) == "filter" and not ({"filter_size", "sigma_space"} & set(pipe[k]))) for k in keys)))
+    ctx.gate("bilateral_default_after_an_explicit_sigma_space", int(_state.get("explicit_sigma_seen", False) and any(
+        pipe[k].get("filter_method") == "bilateral" and "sigma_space" not in pipe[k] for k in keys)))
+    if any(pipe[k].get("filter_method") == "bilateral" and pipe[k].get("sigma_space") not in (None, 6.0) for k in keys):
+        _state["explicit_sigma_seen"] = True
     exp = ref.expected(completed, shape, step)
     ctx.count("margin_tables_compared")
     if json.dumps(got) != json.dumps(exp):
@@ -285,15 +327,16 @@ def _cli(case, ctx):
     params = draw_params(rng, keys, (rows, cols))
     for k in keys:
         if pipes.kind_of(k) == "matching_cost":
-            params[k]["window_size"] = min(params[k]["window_size"], 5)
-            if params[k]["matching_cost_method"] == "census":
-                params[k]["window_size"] = 3
+            if params[k]["window_size"] != OMIT:
+                params[k]["window_size"] = min(params[k]["window_size"], 5)
+                if params[k]["matching_cost_method"] == "census":
+                    params[k]["window_size"] = 3
         if pipes.kind_of(k) == "filter" and params[k]["filter_method"] == "median_for_intervals":
-            params[k] = {"filter_method": "median", "filter_size": params[k]["filter_size"]}
+            params[k] = {"filter_method": "median", **({"filter_size": params[k]["filter_size"]} if "filter_size" in params[k] else {})}
         if pipes.kind_of(k) == "filter" and "filter_size" in params[k]:
             # the CLI case executes the pipeline: keep the filter window inside the image (domain of C10)
             params[k]["filter_size"] = min(params[k]["filter_size"], 7)
-    pipe = pipes.instantiate(keys, params=params)
+    pipe = strip_omitted(pipes.instantiate(keys, params=params))
     user = {
         "input": {
             "left": {"img": os.path.join(d, "left.tif"), "disp": [-2, 2]},
@@ -309,7 +352,7 @@ def _cli(case, ctx):
     saved = json.load(open(os.path.join(out, "cfg", "config.json")))
     ctx.case(["cli", keys, params, (rows, cols)])
     ctx.gate("cli_saved_margins")
-    exp = ref.expected({k: saved["pipeline"][k] for k in keys}, (rows, cols), 1)
+    exp = ref.expected(documented({k: pipe[k] for k in keys}), (rows, cols), 1)
     if "margins" not in saved:
         ctx.violation("saved-config-lacks-margins", f"cfg/config.json of {pipe} has keys {list(saved)}", case)
     elif json.dumps(saved["margins"]) != json.dumps(exp):
